@@ -217,3 +217,47 @@ Definition reg_count (r : list (Z * list Z)) (h : Z) : nat :=
 
 Definition listed (r : list (Z * list Z)) (e : event) : bool :=
   existsb (Z.eqb (c_hash (fst e))) (reg_get r (snd e)).
+
+(* ------------------------------------------------------------------ domain predicates and oracles *)
+
+Definition index_nonzero (o : op) : bool :=
+  match o with OConsume _ i _ => negb (i =? 0) | _ => true end.
+
+(* the way Pipeline.Run calls Consume: the first consumed commit has index 0 and no other has;
+   returns that first commit *)
+Fixpoint shape (ops : list op) : option commit :=
+  match ops with
+  | [] => None
+  | OConsume _ i c :: rest => if (i =? 0) && forallb index_nonzero rest then Some c else None
+  | _ :: ops' => shape ops'
+  end.
+
+Definition times (l : list event) : list Z := map (fun e => c_when (fst e)) l.
+Definition ticks (l : list event) : list Z := map snd l.
+
+(* committer times never decrease along the history and are not before the first analysed commit *)
+Definition mono_times (first : Z) (l : list event) : bool := nondecreasing first (times l).
+
+(* a commit that is consumed again (a merge commit replayed on another branch) has parents and is
+   the same commit (same time) *)
+Fixpoint replays_ok (evs : list event) : bool :=
+  match evs with
+  | [] => true
+  | e :: evs' =>
+      forallb (fun e' => negb (c_hash (fst e') =? c_hash (fst e))
+                         || ((0 <? c_parents (fst e'))%nat && (c_when (fst e') =? c_when (fst e)))) evs'
+      && replays_ok evs'
+  end.
+
+(* the un-raised tick: depends on the commit alone (given the start t0 and the tick size) *)
+Definition elapsed_ticks (t0 d t : Z) : Z := Z.quot (time_sub t t0) d.
+
+Definition alone (t0 d : Z) (l : list event) : bool :=
+  forallb (fun e => snd e =? elapsed_ticks t0 d (c_when (fst e))) l.
+
+(* r is the greatest multiple of d not after t *)
+Definition floor_ok (t d r : Z) : bool := (r mod d =? 0) && (r <=? t) && (t <? r + d).
+
+(* decimal transport of big numbers between the driver and the model *)
+Definition z_pack (hi lo : Z) : Z := hi * 1000000000 + lo.
+Definition z_unpack (z : Z) : Z * Z := Z.quotrem z 1000000000.
